@@ -155,6 +155,16 @@ inductive Failure where
   | hang (after : Nat)         -- … blocks until the frame timeout cancels the stream
   deriving DecidableEq, Repr
 
+/-- The error value a failing `Recv` returns, as far as the receivers could tell errors apart:
+    `isEOF` — it *is* io.EOF (`err == io.EOF`); `chainEOF` — io.EOF is in its cause chain or its
+    `Is(io.EOF)` method says so (`errors.Is(err, io.EOF)`; true for io.EOF itself).  A plain error, a
+    gRPC status error, context.DeadlineExceeded and io.ErrUnexpectedEOF have neither; `fmt.Errorf("…: %w", io.EOF)`
+    and an error type with `Is(io.EOF) = true` have only `chainEOF`. -/
+structure RecvError where
+  isEOF : Bool := false
+  chainEOF : Bool := false
+  deriving DecidableEq, Repr
+
 structure Store where
   supportsSharding : Bool
   supportsWithout : Bool
@@ -164,7 +174,22 @@ structure Store where
   recvMsg : Bytes             -- text of the warning for a Recv error
   timeoutMsg : Bytes          -- … for a frame timeout
   openMsg : Bytes             -- … for a failing `Series()` call
+  recvError : RecvError := {} -- which error the failing Recv (`recvErr k`) returns
   deriving Repr
+
+/-- the stream-end predicate of both receivers (`handleRecvResponse` of `newLazyRespSet` and
+    `newEagerRespSet`): `err == io.EOF` — identity with io.EOF, nothing else ends a stream cleanly -/
+def isEnd (e : RecvError) : Bool := e.isEOF
+
+/-- What the receivers see of a store, given a stream-end predicate: a `Recv` "failure" that the
+    predicate accepts is the end of the stream (the frames before it were delivered, nothing is
+    reported); any other error is the failure `failAt` turns into a warning.  -/
+def Store.seenWith (endTest : RecvError → Bool) (st : Store) : Store :=
+  match st.failure with
+  | .recvErr k => if endTest st.recvError then { st with failure := .none, frames := st.frames.take k } else st
+  | _ => st
+
+def Store.seen (st : Store) : Store := st.seenWith isEnd
 
 /-- does the Recv after `i` delivered frames fail, and with which warning -/
 def failAt (st : Store) (i : Nat) : Option Frame :=
@@ -341,6 +366,10 @@ def proxySeriesWith (merge : List (List Frame) → List Frame) (rq : Request) (s
 def proxySeries (rq : Request) (stores : List Store) : List Frame × Outcome :=
   proxySeriesWith treeMerge rq stores
 
+/-- … with the error kinds of the failing Recvs taken into account: the model the driver runs -/
+def proxySeriesSeen (rq : Request) (stores : List Store) : List Frame × Outcome :=
+  proxySeries rq (stores.map Store.seen)
+
 /-! ### one level up: `querier.selectFn` (pkg/query/querier.go)
 
   `seriesServer.Send` collects the proxy's answer (warnings with a non-empty text become
@@ -373,5 +402,7 @@ def selectFnWith (dropWhenEmpty : Bool) (merge : List (List Frame) → List Fram
   | (_, _) => { failed := true, series := [], warnings := [] }
 
 def selectFn (rq : Request) (stores : List Store) : SelectResult := selectFnWith false treeMerge rq stores
+
+def selectFnSeen (rq : Request) (stores : List Store) : SelectResult := selectFn rq (stores.map Store.seen)
 
 end Thanos.Merge
